@@ -87,6 +87,10 @@ PREAMBLES = [
     ('augments-doc', "'module docstring'\n__doc__+=' more'\n"),
     ('assigns-doc', "'module docstring'\n__doc__=__doc__.upper()\n"),
     ('deletes-doc', "'module docstring'\ndel __doc__\n"),
+    # the exception name is rebound through the namespace dictionary: invisible to static resolution, which is why nothing may be assumed about
+    # names in a module that uses globals() / a star import
+    ('shadow-exc-dynamic', "globals()['ValueError']=lambda *a:KeyError(5)\n"),
+    ('shadow-exc-dynamic-late', "def rebind_():\n globals()['ValueError']=lambda *a:KeyError(5)\nrebind_()\n"),
 ]
 
 
